@@ -6,6 +6,7 @@ import (
 	"fmt"
 	"strings"
 	"sync"
+	"sync/atomic"
 	"time"
 
 	jsonrpc "github.com/filecoin-project/go-jsonrpc"
@@ -14,6 +15,16 @@ import (
 )
 
 type customPanic struct{ A int }
+
+// typedNilErr: the "typed nil error" gotcha - an error whose Error method dereferences a nil receiver
+type typedNilErr struct{ msg string }
+
+func (e *typedNilErr) Error() string { return e.msg }
+
+// badStringer: a Stringer whose String method itself panics
+type badStringer struct{}
+
+func (badStringer) String() string { panic("stringer exploded") }
 
 // PanicSrv: one method per panic payload, plus healthy siblings.
 type PanicSrv struct {
@@ -41,10 +52,22 @@ func (h *PanicSrv) doPanic(payload string) {
 		panic(customPanic{A: 7})
 	case "nil":
 		panic(nil)
+	case "nilerr":
+		var e *typedNilErr
+		panic(e)
+	case "badstringer":
+		panic(badStringer{})
 	}
 }
 
 func (h *PanicSrv) Boom(ctx context.Context, payload string) (int, error) {
+	h.doPanic(payload)
+	return 1, nil
+}
+
+// BoomAfterCancel panics only after its caller has cancelled the call.
+func (h *PanicSrv) BoomAfterCancel(ctx context.Context, payload string) (int, error) {
+	<-ctx.Done()
 	h.doPanic(payload)
 	return 1, nil
 }
@@ -107,6 +130,7 @@ func (r *PanicRevHnd) RBoom(ctx context.Context, payload string) (int, error) {
 
 type PanicCli struct {
 	Boom     func(ctx context.Context, payload string) (int, error)
+	BoomAfterCancel func(ctx context.Context, payload string) (int, error)
 	BoomNote func(ctx context.Context, payload string) error `notify:"true"`
 	BoomSub  func(ctx context.Context, payload string) (<-chan int, error)
 	Echo     func(ctx context.Context, tok int) (int, error)
@@ -122,8 +146,8 @@ func init() {
 		Cfg:      vsched.Config{Horizon: 10 * time.Second},
 		Params: func(tier string) []Param {
 			var ps []Param
-			payloads := []string{"string", "error", "nilmap", "nilderef", "custom", "nil"}
-			kinds := []string{"unary", "notify", "chan", "reverse"}
+			payloads := []string{"string", "error", "nilmap", "nilderef", "custom", "nil", "nilerr", "badstringer"}
+			kinds := []string{"unary", "notify", "chan", "reverse", "cancelled"}
 			for _, k := range kinds {
 				for i, pl := range payloads {
 					b := 0
@@ -187,7 +211,7 @@ func panicBody(s *vsched.Sched, p Param) {
 			v, ok := obs.Get("ret-boom")
 			if !ok {
 				s.Violate("C13: the panicking call never returned; alive: %s", strings.Join(s.Alive(), " "))
-			} else if !strings.Contains(v, "panic") {
+			} else if !strings.Contains(strings.ToLower(v), "panic") {
 				s.Violate("C13: the caller of the panicking %s handler (payload %s) did not receive an error mentioning the panic: %s", kind, payload, v)
 			}
 		}
@@ -207,7 +231,7 @@ func panicBody(s *vsched.Sched, p Param) {
 		}
 		if v, ok := obs.Get("ret-again"); !ok {
 			s.Violate("C13: a subsequent call to the panicking method never returned")
-		} else if kind != "notify" && !strings.Contains(v, "panic") {
+		} else if kind != "notify" && !strings.Contains(strings.ToLower(v), "panic") {
 			s.Violate("C13: a subsequent call to the panicking method behaved differently: %s", v)
 		}
 		if v, ok := obs.Get("ret-H2"); !ok || v != "61/<nil>" {
@@ -215,6 +239,7 @@ func panicBody(s *vsched.Sched, p Param) {
 		}
 		s.SetObs(obs.String())
 	}
+	var nCancel atomic.Int32
 	boom := func() string {
 		switch kind {
 		case "notify":
@@ -226,6 +251,12 @@ func panicBody(s *vsched.Sched, p Param) {
 		case "reverse":
 			v, err := cli.CallRev(context.Background(), payload)
 			return fmt.Sprintf("%s/%v", v, err)
+		case "cancelled":
+			// the caller cancels while the method runs; the method panics afterwards
+			ctx, cancel := context.WithCancel(context.Background())
+			s.Go(fmt.Sprintf("zcancel-%d", nCancel.Add(1)), cancel)
+			v, err := cli.BoomAfterCancel(ctx, payload)
+			return fmt.Sprintf("%d/%v", v, err)
 		default:
 			v, err := cli.Boom(context.Background(), payload)
 			return fmt.Sprintf("%d/%v", v, err)
